@@ -102,6 +102,7 @@ func (ex *Exec) mapSet(st *State, T types.Type, ref string, k, v Val, present st
 	}
 	srt := sArr(sInt, sArr(ksort, sBool))
 	h := ex.heapGet(st, has, srt)
+	ex.writeObj(st, has, ref)
 	ex.heapSet(st, has, srt, store(h, ref, store(sel(h, ref), k.L[0], present)))
 	if present == "true" {
 		for i, l := range vl {
@@ -250,11 +251,14 @@ func (ex *Exec) copyMem(st *State, dst, src Val) string {
 		return n
 	}
 	ls := flatten(E)
-	for _, l := range ls {
+	for li, l := range ls {
 		k := memKey(E, l, len(ls))
 		srt := sArr(sInt, sArr(bv64, l.Sort))
 		m := ex.heapGet(st, k, srt)
 		d := sel(m, dst.L[0])
+		if li == 0 {
+			ex.writeMem(st, []string{k}, dst.L[0], dst.L[1], app("bvadd", dst.L[1], n))
+		}
 		var srcAt func(i string) string
 		if fromString {
 			srcAt = func(i string) string { return app("str_at", src.L[0], i) }
@@ -280,11 +284,14 @@ func (ex *Exec) clearMem(st *State, E types.Type, s Val) {
 		return
 	}
 	ls := flatten(E)
-	for _, l := range ls {
+	for li, l := range ls {
 		k := memKey(E, l, len(ls))
 		srt := sArr(sInt, sArr(bv64, l.Sort))
 		m := ex.heapGet(st, k, srt)
 		d := sel(m, s.L[0])
+		if li == 0 {
+			ex.writeMem(st, []string{k}, s.L[0], s.L[1], app("bvadd", s.L[1], s.L[2]))
+		}
 		body := func(i string) string {
 			return ite(and(app("bvule", s.L[1], i), app("bvult", i, app("bvadd", s.L[1], s.L[2]))), zeroOf(l.Sort), sel(d, i))
 		}
@@ -334,11 +341,14 @@ func (ex *Exec) appendOp(fr *Frame, st *State, cc *ssa.CallCommon, args []Val, p
 		return Val{T: s.T, L: []string{base, off, newLen, cp}}
 	}
 	ls := flatten(E)
-	for _, l := range ls {
+	for li, l := range ls {
 		k := memKey(E, l, len(ls))
 		srt := sArr(sInt, sArr(bv64, l.Sort))
 		m := ex.heapGet(st, k, srt)
 		old := sel(m, s.L[0])
+		if li == 0 {
+			ex.writeMem(st, []string{k}, s.L[0], app("bvadd", s.L[1], s.L[2]), ite(fits, app("bvadd", s.L[1], newLen), app("bvadd", s.L[1], s.L[2])))
+		}
 		var srcAt func(i string) string
 		if fromString {
 			srcAt = func(i string) string { return app("str_at", add.L[0], i) }
